@@ -100,10 +100,13 @@ func (t *List) CoerceIn(v interface{}) (interface{}, error) {
 		if co, _ := t.Base.(InCoercer); co != nil {
 			var cv interface{}
 			var err error
+			// The coerced members go into a new list, the one given may be
+			// a literal or a default of a parsed request.
+			out := make([]interface{}, len(list))
 			for i := len(list) - 1; 0 <= i; i-- {
 				cv, err = co.CoerceIn(list[i])
 				if err == nil {
-					list[i] = cv
+					out[i] = cv
 				} else {
 					var gerr *Error
 					if errors.As(err, &gerr) {
@@ -115,7 +118,7 @@ func (t *List) CoerceIn(v interface{}) (interface{}, error) {
 					return nil, err
 				}
 			}
-			return v, nil
+			return out, nil
 		}
 	}
 	return nil, newCoerceErr(v, t.Name())
